@@ -136,6 +136,13 @@ class LeaseCheckingCrawler(ShareCrawler):
         # the keys individually
         for k in so_far:
             self.state["cycle-to-date"].setdefault(k, so_far[k])
+        # the state file holds the JSON-safe form of the histogram of a
+        # cycle in progress (see convert_lease_age_histogram): when we resume
+        # that cycle, turn it back into { (minage,maxage) : count }
+        lah = self.state["cycle-to-date"]["lease-age-histogram"]
+        if isinstance(lah, list):
+            self.state["cycle-to-date"]["lease-age-histogram"] = dict(
+                ((minage, maxage), count) for (minage, maxage, count) in lah)
 
     def create_empty_cycle_dict(self):
         recovered = self.create_empty_recovered_dict()
